@@ -294,7 +294,7 @@ class PlainText(NativeCase):
             blocks = [pipeline.plain_text(corpus.tokens(b)) for b in corpus.BASE_BLOCKS] + \
                      ["PUSH [tag] 5 JUMP", "PUSH1 0x01 PUSH [tag] 2 JUMPI", "PUSHSIZE PUSHDEPLOYADDRESS ADD", "PUSH data 0a POP",
                       "PUSHIMMUTABLE 12 PUSH1 0x00 ASSIGNIMMUTABLE 12", "PUSH #[$] 00 PUSH [$] 00 ADD", "PUSHLIB lib1 PUSHLIB lib2 PUSHLIB lib1 ADD ADD",
-                      "tag 3 JUMPDEST PUSH1 0x00 DUP1 REVERT"]
+                      "tag 3 JUMPDEST PUSH1 0x00 DUP1 REVERT", "PUSH [tag] 5 JUMP [in]", "JUMP [out]", "PUSH1 0x01 PUSH [tag] 2 JUMPI"]
             for text in blocks:
                 try:
                     b1 = parser_asm.parse_blocks_from_plain_instructions(text)
